@@ -59,7 +59,8 @@ pub(super) fn get_highest_index(file_spec: &FileSpec) -> Option<u32> {
     for file in
         super::list_and_cleanup::list_of_log_and_compressed_files(file_spec, &InfixFilter::Numbrs)
     {
-        let name = file.file_stem().unwrap(/*ok*/).to_string_lossy();
+        // (not the file stem: without a suffix, it ends at the last dot of the basename)
+        let name = file.file_name().unwrap(/*ok*/).to_string_lossy();
         let infix = if file_spec.has_basename()
             || file_spec.has_discriminant()
             || file_spec.uses_timestamp()
@@ -74,7 +75,7 @@ pub(super) fn get_highest_index(file_spec: &FileSpec) -> Option<u32> {
             &name[1..]
         };
 
-        // for compressed files, the stem still carries the suffix (e.g. "00017.log")
+        // the infix is followed by the suffix, if any, and ".gz" for compressed files
         let idx: u32 = infix.split('.').next().unwrap_or(infix).parse().unwrap_or(0);
         o_highest_idx = match o_highest_idx {
             None => Some(idx),
